@@ -137,7 +137,7 @@ def check(case, ctx):
                     cont = r.modeling_obj_container
                     if cont is None:
                         continue
-                    n, a = cont.name, r.attr_name_in_mod_obj_container
+                    n, a = S.key_of(cont), r.attr_name_in_mod_obj_container
                     if n not in ref_reach:
                         continue
                     got = snap.canon(getattr(cont, a))
